@@ -2,21 +2,22 @@
 # usage: seed_regress.sh <chain-id> <jobs> <seed-id>...
 # Runs the registered quick check of each seed's property against a scratch worktree with the seed applied
 # (never touches /repo's working tree) and appends "<seed> exit=<rc> <first deciding line>" to
-# /verif/seeded/regress_<chain-id>.log.  Expected: exit=1 for every seed recorded as caught in seeded/INDEX.md.
+# seeded/regress_<chain-id>.log (next to this script: works from a `vp run` snapshot too).  Expected: exit=1 for every seed recorded as caught in seeded/INDEX.md.
 CH=$1; JOBS=$2; shift 2
+HERE=$(cd "$(dirname "$0")/.." && pwd)
 WT=/tmp/wt_reg_$CH
 git -C /repo worktree remove --force $WT 2>/dev/null; rm -rf $WT
 git -C /repo worktree add -q --detach $WT HEAD || exit 9
-LOG=/verif/seeded/regress_$CH.log
+LOG=$HERE/seeded/regress_$CH.log
 for S in "$@"; do
   PROP=${S%%-*}
-  ( cd $WT && git checkout -q -- . && git apply /verif/seeded/$S/patch.diff ) || { echo "$S APPLY-FAILED" >> $LOG; continue; }
-  OUT=$(cd /verif && VHOST_REPO=$WT VERIF_WORK=/verif/.work_reg$CH VERIF_NO_EVIDENCE=1 VERIF_NO_SAT_SAMPLE=1 ./vcheck.py $PROP --tier quick --no-replay --jobs $JOBS 2>&1)
+  ( cd $WT && git checkout -q -- . && git apply $HERE/seeded/$S/patch.diff ) || { echo "$S APPLY-FAILED" >> $LOG; continue; }
+  OUT=$(cd $HERE && VHOST_REPO=$WT VERIF_WORK=$HERE/.work_reg$CH VERIF_NO_EVIDENCE=1 VERIF_NO_SAT_SAMPLE=1 ./vcheck.py $PROP --tier quick --no-replay --jobs $JOBS 2>&1)
   RC=$?
   LINE=$(echo "$OUT" | grep -E "violation|inconclusive" | head -1 | cut -c1-120)
   FAIL=$(echo "$OUT" | grep -E "^   (failed|inconclusive):" | head -1 | cut -c1-160)
   echo "$S exit=$RC $(echo "$OUT" | grep -o 'harnesses=[0-9]* wall=[0-9]*s') | $LINE |$FAIL" >> $LOG
 done
 ( cd $WT && git checkout -q -- . )
-git -C /repo worktree remove --force $WT; rm -rf /verif/.work_reg$CH
+git -C /repo worktree remove --force $WT; rm -rf $HERE/.work_reg$CH
 echo "chain $CH done" >> $LOG
